@@ -21,6 +21,7 @@ def tasks(tier):
         for chunk in ((0, 1, 7) if tier == 'quick' else (0, 1, 2, 5, 7, 12, 22, 23, 30, 45)):
             ts.append(Task('verifHarness_C10_reader', [keyed, chunk]))
     ts += [Task('verifHarness_C14_read_failure', [busy]) for busy in (0, 1)]
+    ts.append(Task('verifHarness_C10_write_failure_order', []))
     for keyed in (0, 1):
         for chunk in ((0, 5) if tier == 'quick' else (0, 1, 5, 13, 30, 40)):
             ts.append(Task('verifHarness_C10_consumer', [keyed, chunk]))
@@ -28,13 +29,14 @@ def tasks(tier):
 
 
 def required_reach(tier):
-    return ['C10/R', 'C14/L2', 'C10/C']
+    return ['C10/R', 'C14/L2', 'C10/C', 'C10/W']
 
 
 def bounds(tier):
     return {'stream': 'junk byte (not a marker), valid frame, complete frame with a wrong checksum (keyed link: wrong signature, then an '
                       'unsigned frame), valid frame; all header/payload bytes symbolic (valid frames kept canonical: last payload byte non-zero)',
             'segmentation': 'first transport read of size 0(all),1,7 (quick) / ten sizes (thorough)',
+            'write_failure_order_one_schedule': 'three frames received in one piece, a slow application, then a failing write: the close event comes after every received frame and nothing follows it',
             'consumer_one_schedule': 'the whole channel (run, reader, writer) over frame, junk, frame, frame then end of stream, the harness taking events one at a time from the unbuffered event channel: open, every item in order, one close carrying io.EOF, nothing after, goroutines ended',
             'close_event_one_schedule': 'Channel.run with reader, writer and run goroutines executed round-robin to quiescence: after a transport read failure (writer idle or stuck in the transport) exactly one close event, carrying the cause, transport closed, no goroutine left, done signalled',
             'NOT DECIDED': 'exactly one close event, close after the last frame, nothing after close, attribution under cross-channel '
